@@ -368,6 +368,12 @@ func load(cmdline, environ, envprefix []string, props *properties.Properties) (c
 		return nil, fmt.Errorf("proxy.noroutestatus must be between 100 and 999")
 	}
 
+	// the push based metrics backends report with a ticker which
+	// panics on a non-positive interval
+	if cfg.Metrics.Interval <= 0 {
+		return nil, fmt.Errorf("metrics.interval must be greater than zero")
+	}
+
 	// a negative size would crash the proxies when they create their cache
 	if cfg.GlobCacheSize < 0 {
 		return nil, fmt.Errorf("glob.cache.size must not be negative")
